@@ -67,6 +67,48 @@ lyd_ctx_free(struct lyd_ctx *lydctx)
     lyd_val_getnext_ht_free(lydctx->val_getnext_ht);
 }
 
+void
+lyd_ctx_forget_subtree(struct lyd_ctx *lydctx, const struct lyd_node *root)
+{
+    const struct lyd_node *elem;
+    const struct lyd_meta *meta;
+    uint32_t i;
+
+    if (!lydctx || !root) {
+        return;
+    }
+
+    /* only the nodes of the (still valid) subtree are read, the stored pointers are just compared */
+    LYD_TREE_DFS_BEGIN(root, elem) {
+        while (ly_set_contains(&lydctx->node_types, (void *)elem, &i)) {
+            ly_set_rm_index_ordered(&lydctx->node_types, i, NULL);
+        }
+        while (ly_set_contains(&lydctx->node_when, (void *)elem, &i)) {
+            ly_set_rm_index_ordered(&lydctx->node_when, i, NULL);
+        }
+        LY_LIST_FOR(elem->meta, meta) {
+            while (ly_set_contains(&lydctx->meta_types, (void *)meta, &i)) {
+                ly_set_rm_index_ordered(&lydctx->meta_types, i, NULL);
+            }
+        }
+        i = lydctx->ext_node.count;
+        while (i) {
+            --i;
+            if (((struct lyd_ctx_ext_node *)lydctx->ext_node.objs[i])->node == elem) {
+                ly_set_rm_index_ordered(&lydctx->ext_node, i, free);
+            }
+        }
+        i = lydctx->ext_val.count;
+        while (i) {
+            --i;
+            if (((struct lyd_ctx_ext_val *)lydctx->ext_val.objs[i])->sibling == elem) {
+                ly_set_rm_index_ordered(&lydctx->ext_val, i, free);
+            }
+        }
+        LYD_TREE_DFS_END(root, elem);
+    }
+}
+
 LY_ERR
 lyd_parser_notif_eventtime_validate(const struct lyd_node *node)
 {
